@@ -44,6 +44,11 @@ func runC03(cfg *vh.Config) error {
 	}
 	em := &emitter{cf: &vh.CasesFile{Header: envHeader(targets), Type: "deccase", Check: "dec_check"}, res: res, perShd: 250}
 	distinct := vh.Distinct{}
+	// the schema conditions of the theorems, once per environment
+	for _, t := range targets {
+		em.add("CEnv "+t.Name, "environment", map[string]any{"target": t.Env.Root}, map[string]any{"env": t.Name})
+		em.caseNo++
+	}
 	r := cfg.R
 	byName := map[string]*target{}
 	for _, t := range targets {
@@ -451,7 +456,7 @@ func runC03(cfg *vh.Config) error {
 
 	// ---- stream 7: timestamp texts, valid in every accepted form and near misses: the model of
 	// time.Parse(time.RFC3339, .) against the real function (the theorems about timestamps assume they agree)
-	nTime := cfg.Scale(600, 6000)
+	nTime := cfg.Scale(400, 6000)
 	fixedTimes := []string{"", "Z", "2020-01-01T00:00:00Z", "2020-01-01T00:00:00z", "2020-01-01t00:00:00Z", "2020-01-01 00:00:00Z", "2020-01-01T00:00:00", "2020-01-01T00:00Z", "2020-01-01",
 		"2020-01-01T24:00:00Z", "2020-01-01T23:59:60Z", "2016-12-31T23:59:60Z", "2020-01-01T1:02:03Z", "2020-01-01T1:2:3Z", "2020-01-01T01:02:03.Z", "2020-01-01T01:02:03,5Z", "2020-01-01T01:02:03.1234567891234Z",
 		"2020-01-01T00:00:00+24:00", "2020-01-01T00:00:00+24:60", "2020-01-01T00:00:00+25:00", "2020-01-01T00:00:00-00:61", "2020-01-01T00:00:00+0000", "2020-01-01T00:00:00+00", "2020-01-01T00:00:00 00:00",
@@ -477,7 +482,7 @@ func runC03(cfg *vh.Config) error {
 	}
 
 	// ---- stream 8: decimal texts: the model of decimal.NewFromString / String() (lib/Decimal.v) against the library
-	nDec := cfg.Scale(500, 4000)
+	nDec := cfg.Scale(300, 4000)
 	for i := 0; i < nDec; i++ {
 		s := codecgen.DecimalText(r)
 		term, ok := codecgen.DecimalTerm(s)
